@@ -4,7 +4,7 @@ two tasks, task outcome, stage_on_error) is instantiated on real directory
 trees under a temp dir and pushed through the REAL staging pipeline
 
     Task.__init__ (expand_description)            client
-    TMGRSchedulingComponent._assign_pilot          client   (Session sandbox helpers)
+    tmgr scheduler (RoundRobin)._assign_pilot      client   (Session sandbox helpers)
     tmgr  staging_input .Default.work              client   (TRANSFER, TARBALL)
     agent staging_input .Default.work              agent    (COPY, LINK, MOVE, untar)
     -- execution: the rig writes the task's output files, sets target_state --
@@ -13,8 +13,9 @@ trees under a temp dir and pushed through the REAL staging pipeline
 
 with the real StagingHelper / StagingHelper_Local (real `cp` through
 ru.sh_callout, real os.link, shutil.move, tarfile).  The components are built
-with __new__ plus the attributes their methods read; the real `advance` runs,
-only its two sinks (state publisher, output queue) are in-memory fakes which
+with __new__ plus what BaseComponent.__init__ provides, then their REAL
+initialize() runs (registration calls answered by fakes); the real `advance`
+runs, only its two sinks (state publisher, output queue) are in-memory fakes which
 route the task dicts to the next stager and give the task outcome.
 
 One event is recorded per stager: the six location trees (client, endpoint,
@@ -49,7 +50,7 @@ rpc = rp.constants
 from radical.pilot import session as rp_session
 from radical.pilot import task    as rp_task
 from radical.pilot.utils import staging_helper as rp_sh
-from radical.pilot.tmgr.scheduler.base        import TMGRSchedulingComponent
+from radical.pilot.tmgr.scheduler.round_robin import RoundRobin
 from radical.pilot.tmgr.staging_input.default  import Default as TmgrIn
 from radical.pilot.tmgr.staging_output.default import Default as TmgrOut
 from radical.pilot.agent.staging_input.default  import Default as AgentIn
@@ -115,7 +116,7 @@ class StagingRig(object):
     def __init__(self, case, keep=False, hooks=None):
         '''
         case : {'din': [directive], 'dout': [directive], 'oc': 'DONE'|'FAILED'|'CANCELED',
-                'soe': bool}     directive = {form, act, sk, sp, tk, tp}
+                'soe': bool, 'cs': 'same'|'differs'}     directive = {form, act, sk, sp, tk, tp}
         '''
         self.case      = case
         self.keep      = keep
@@ -225,10 +226,23 @@ class StagingRig(object):
         # "e/" exists (empty) in every non-task location
         for loc in LOCS:
             os.makedirs(os.path.join(self.dirs[loc], 'e'))
-        self.cwd = root + '/cwd'
-        os.makedirs(self.cwd)
-        self.dirs['cwd'] = self.cwd     # working directory of all components (the agent's
-                                        # is the pilot sandbox in production: any directory)
+        # working directory of the client process (and, here, of all components;
+        # the agent's is the pilot sandbox in production: any directory).
+        #   cs = 'same'   : no client_sandbox configured, the session's client
+        #                   sandbox IS the working directory
+        #   cs = 'differs': session config names another directory; the working
+        #                   directory holds decoys named like the client's files
+        if self.case.get('cs', 'differs') == 'same':
+            self.cwd = self.dirs['client']
+        else:
+            self.cwd = root + '/cwd'
+            os.makedirs(self.cwd)
+            self.dirs['cwd'] = self.cwd
+            for f in ('a', 's/a', 'ba'):
+                p = os.path.join(self.cwd, f)
+                os.makedirs(os.path.dirname(p), exist_ok=True)
+                with open(p, 'w') as fh:
+                    fh.write('decoy:%s' % f)
         # 'target exists already': a stale regular file at an absolute target,
         # a same-named regular file in the working directory for a relative one
         for d in self.case['din']:
@@ -247,37 +261,50 @@ class StagingRig(object):
             shutil.rmtree(self.root, ignore_errors=True)
 
     # --------------------------------------------------------------------------
-    def component(self, cls, who):
+    def component(self, cls, who, reg=None):
+        '''a component the way production sets it up: __new__, what
+           BaseComponent.__init__ would provide (ids, logger, session, config,
+           registry, publishers), then the REAL initialize() with the
+           registration calls answered by in-memory fakes - whatever
+           initialize() sets is there, now and after a change of the code'''
         c = cls.__new__(cls)
         c._uid        = who
         c._log        = rpshim.NullLog()
         c._prof       = rpshim.NullLog()
         c._session    = self.session
+        c._cfg        = ru.Config(from_dict={'owner': 'tmgr.0000', 'uid': who})
+        c._reg        = reg or {}
+        c._inputs     = dict()
+        c._outputs    = dict()
         c._publishers = {rpc.STATE_PUBSUB: FakePub(self, who)}
         out           = FakeOut(self, who)
-        c._outputs    = {st: out for st in
-                         [rps.AGENT_STAGING_INPUT_PENDING, rps.AGENT_SCHEDULING_PENDING,
-                          rps.TMGR_STAGING_OUTPUT_PENDING]}
-        c._stager     = rp_sh.StagingHelper(c._log)
-        if not isinstance(c._stager._backend, rp_sh.StagingHelper_Local):
-            c._stager._backend = rp_sh.StagingHelper_Local(c._log)
-        c._pwd        = self.cwd
+
+        def register_input(states, queue, cb=None, qname=None, path=None):
+            for st in ru.as_list(states):
+                c._inputs[st] = {'queue': queue, 'cb': cb}
+
+        def register_output(states, qname):
+            for st in ru.as_list(states):
+                c._outputs[st] = out
+
+        c.register_input      = register_input
+        c.register_output     = register_output
+        c.register_subscriber = lambda pubsub, cb: None
+        c.register_publisher  = lambda pubsub: None
+        c.initialize()
+
+        stager = getattr(c, '_stager', None)
+        if stager is not None and not isinstance(stager._backend, rp_sh.StagingHelper_Local):
+            stager._backend = rp_sh.StagingHelper_Local(c._log)     # local back end only
         return c
 
     def build(self):
-        self.sched = TMGRSchedulingComponent.__new__(TMGRSchedulingComponent)
-        self.sched._log        = rpshim.NullLog()
-        self.sched._session    = self.session
-        self.sched._tasks_lock = threading.RLock()
-        self.sched._tasks      = dict()
-
-        self.tin = self.component(TmgrIn, 'tmgr_staging_input.0000')
-        self.tin._pilots          = {PID: self.pilot}
-        self.tin._pilots_lock     = threading.RLock()
-        self.tin._connected       = [PID]
-        self.tin._session_sbox    = str(self.session._get_session_sandbox(self.pilot))
-        self.tin._tar_idx         = 0
-        self.tin._mkdir_threshold = 1024 * 1024
+        # all components are created in the client's working directory
+        self.sched = self.component(RoundRobin, 'tmgr.0000.scheduling.0000')
+        self.tin   = self.component(TmgrIn, 'tmgr_staging_input.0000', reg={
+                         'cfg.session_sandbox': str(self.session._get_session_sandbox(self.pilot))})
+        self.tin.control_cb(rpc.CONTROL_PUBSUB, {'cmd': 'add_pilots',
+                                                 'arg': {'pilots': [self.pilot]}})
         self.ain  = self.component(AgentIn,  'agent_staging_input.0000')
         self.aout = self.component(AgentOut, 'agent_staging_output.0000')
         self.tout = self.component(TmgrOut,  'tmgr_staging_output.0000')
